@@ -32,6 +32,7 @@ def corpus():
     out.append({"k": "seq", "n": 1, "d": 32, "steps": ["frac", "float"]})
     out.append({"k": "events", "ev": [[0, [False, 60000, 3]], [192, [False, 120, 0]]], "noise": 0})
     out.append({"k": "events", "ev": [], "noise": 0})
+    out += [{"k": "ops", "op": op, "a": [0, 54], "b": [597, 770], "bk": "frac"} for op in ("rdivmod", "rtruediv", "rmod", "mul")]   # zero divisor: ZeroDivisionError is the right answer
     out.append({"k": "events", "ev": [[576, [False, 90, 0]], [0, [False, 180, 0]], [576, [False, 1, 0]]], "noise": 0})      # written out of order, repeated beat
     out.append({"k": "evstr", "s": "0.000=60.000,\n4.000=120"})
     out.append({"k": "evstr", "s": " \n "})
@@ -195,14 +196,17 @@ def impl(c):
         a = Beat(*c["a"])
         b = {"beat": Beat(*c["b"]), "int": c["b"][0], "frac": Fraction(*c["b"])}[c["bk"]]
         op = c["op"]
-        if op in ("neg", "pos", "abs"):
-            r = getattr(operator, op)(a)
-        elif op.startswith("r"):
-            if c["bk"] == "beat":
-                b = Fraction(*c["b"])
-            r = divmod(b, a) if op == "rdivmod" else getattr(operator, op[1:])(b, a)
-        else:
-            r = divmod(a, b) if op == "divmod" else getattr(operator, op)(a, b)
+        try:
+            if op in ("neg", "pos", "abs"):
+                r = getattr(operator, op)(a)
+            elif op.startswith("r"):
+                if c["bk"] == "beat":
+                    b = Fraction(*c["b"])
+                r = divmod(b, a) if op == "rdivmod" else getattr(operator, op[1:])(b, a)
+            else:
+                r = divmod(a, b) if op == "divmod" else getattr(operator, op)(a, b)
+        except ZeroDivisionError:
+            return ["zerodiv"]                  # legitimate exactly when the divisor is zero: the model says the same
         if isinstance(r, tuple):
             return ["ok", [type(r[1]).__name__, int(r[0]), fr(r[1])]]
         return ["ok", [type(r).__name__, fr(r)]]
@@ -298,6 +302,9 @@ def model(c, ans):
         return ["ok", "Beat", fr(Fraction(c["n"], c["d"]))]
     if k == "ops":
         a = Fraction(*c["a"]); b = Fraction(*c["b"]); op = c["op"]
+        divisor = a if op in ("rtruediv", "rmod", "rdivmod") else b if op in ("truediv", "mod", "divmod") else None
+        if divisor == 0:
+            return ["zerodiv"]
         if op in ("neg", "pos", "abs"):
             r = getattr(operator, op)(a)
         elif op.startswith("r"):
